@@ -14,8 +14,8 @@
 #![allow(dead_code, non_upper_case_globals, static_mut_refs, unused_unsafe, missing_docs, unused_imports, deprecated)]
 
 pub const KMAX: usize = 4;
-pub const NV: usize = 24;
-pub const NB: usize = 8;
+pub const NV: usize = 40;
+pub const NB: usize = 12;
 pub const NT: usize = 4;
 
 pub const SEQ: u8 = 0;
@@ -71,6 +71,9 @@ pub mod ST {
     pub static mut kind: [u8; NV] = [0; NV];
     // pointer table (LR: AtomicPtr stores indices)
     pub static mut boxes: [usize; NB] = [0; NB];
+    /// which AtomicPtr word each box belongs to (a guessed pointer is only ever
+    /// one of the boxes stored into that same word)
+    pub static mut box_owner: [usize; NB] = [usize::MAX; NB];
     pub static mut nbox: usize = 0;
     // ghost verdicts
     pub static mut err: u32 = 0; // union of error codes
@@ -107,6 +110,11 @@ pub mod ST {
     pub static mut stamp: u32 = 0;
     /// shim points are transparent (harness inspection of shared state)
     pub static mut quiet: bool = false;
+    /// AtomicPtr swaps (= snapshot publications) performed so far
+    pub static mut ptr_swaps: u32 = 0;
+    /// keep the LR box table in step with pointer stores made in SEQ/NEST mode
+    /// (set by harnesses that build state sequentially and then go LR)
+    pub static mut mirror_ptrs: bool = false;
 }
 
 // ---------------------------------------------------------------------------
@@ -165,7 +173,19 @@ pub struct Hooks {
     /// The running code spins/yields a second time although nobody else can run
     /// (SEQ / NEST): it waits for another thread.  The harness asserts here.
     pub stuck: fn(),
+    /// A state-changing event: sigaction with a new action, close(), write, a
+    /// snapshot publication.  Harnesses that must see "nothing changed before
+    /// the refusal" assert in here while armed.
+    pub state_change: fn(u8),
+    /// a shim Mutex was acquired / released (word id)
+    pub on_lock: fn(usize),
+    pub on_unlock: fn(usize),
 }
+pub const CH_SIGACTION: u8 = 1;
+pub const CH_CLOSE: u8 = 2;
+pub const CH_WRITE: u8 = 3;
+pub const CH_PUBLISH: u8 = 4;
+pub const CH_FCNTL: u8 = 5;
 fn no_interrupt(_: u8, _: usize) {}
 fn no_deliver(_: crate::c_int) {}
 fn no_terminated() {}
@@ -173,12 +193,17 @@ fn no_block(_: crate::c_int) -> bool {
     false
 }
 fn no_stuck() {}
+fn no_state_change(_: u8) {}
+fn no_lock_event(_: usize) {}
 pub static mut HOOKS: Hooks = Hooks {
     interrupt: no_interrupt,
     deliver: no_deliver,
     terminated: no_terminated,
     block: no_block,
     stuck: no_stuck,
+    state_change: no_state_change,
+    on_lock: no_lock_event,
+    on_unlock: no_lock_event,
 };
 
 // ---------------------------------------------------------------------------
@@ -244,24 +269,35 @@ pub fn set_mode_lr(k: usize, spin_bound: u32, cas_fail_budget: u32) {
         let mut r = 1;
         while r < KMAX {
             if r < k {
+                // eight words per iteration keeps the unwind bound of LR harnesses small
                 let mut v = 0;
                 while v < ST::nvars {
-                    {
-                        let g = any_u64();
-                        match ST::kind[v] {
-                            KIND_BOOL | KIND_MUTEX => assume(g <= 1),
-                            KIND_PTR => assume(g < NB as u64),
-                            KIND_U16 => assume(g <= 0xffff),
-                            _ => {}
-                        }
-                        ST::guess[r][v] = g;
-                        ST::mem[r][v] = g;
-                    }
-                    v += 1;
+                    guess_word(r, v);
+                    guess_word(r, v + 1);
+                    guess_word(r, v + 2);
+                    guess_word(r, v + 3);
+                    guess_word(r, v + 4);
+                    guess_word(r, v + 5);
+                    guess_word(r, v + 6);
+                    guess_word(r, v + 7);
+                    v += 8;
                 }
             }
             r += 1;
         }
+    }
+}
+unsafe fn guess_word(r: usize, v: usize) {
+    if v < ST::nvars && v < NV {
+        let g = any_u64();
+        match ST::kind[v] {
+            KIND_BOOL | KIND_MUTEX => assume(g <= 1),
+            KIND_PTR => assume(g < NB as u64),
+            KIND_U16 => assume(g <= 0xffff),
+            _ => {}
+        }
+        ST::guess[r][v] = g;
+        ST::mem[r][v] = g;
     }
 }
 
@@ -302,26 +338,39 @@ pub fn consistent_upto(upto: usize) -> bool {
             if r + 1 < ST::k && r < upto {
                 let mut v = 0;
                 while v < ST::nvars {
-                    if ST::mem[r][v] != ST::guess[r + 1][v] {
-                        ok = false;
-                    }
-                    if ST::hb_on {
-                        // released clocks travel with the word
-                        let mut c = 0;
-                        while c < NT {
-                            if ST::var_vc[r][v][c] != ST::vc_guess[r + 1][v][c] {
-                                ok = false;
-                            }
-                            c += 1;
-                        }
-                    }
-                    v += 1;
+                    ok = ok
+                        & word_consistent(r, v)
+                        & word_consistent(r, v + 1)
+                        & word_consistent(r, v + 2)
+                        & word_consistent(r, v + 3)
+                        & word_consistent(r, v + 4)
+                        & word_consistent(r, v + 5)
+                        & word_consistent(r, v + 6)
+                        & word_consistent(r, v + 7);
+                    v += 8;
                 }
             }
             r += 1;
         }
         ok
     }
+}
+unsafe fn word_consistent(r: usize, v: usize) -> bool {
+    if v >= ST::nvars || v >= NV {
+        return true;
+    }
+    let mut ok = ST::mem[r][v] == ST::guess[r + 1][v];
+    if ST::hb_on {
+        // released clocks travel with the word
+        let mut c = 0;
+        while c < NT {
+            if ST::var_vc[r][v][c] != ST::vc_guess[r + 1][v][c] {
+                ok = false;
+            }
+            c += 1;
+        }
+    }
+    ok
 }
 
 pub fn consistent() -> bool {
@@ -389,19 +438,25 @@ pub fn hb_enable() {
             if r < ST::k {
                 let mut v = 0;
                 while v < ST::nvars {
-                    {
-                        let mut c = 0;
-                        while c < NT {
-                            let g: u8 = (any_usize() & 0xf) as u8;
-                            ST::var_vc[r][v][c] = g;
-                            ST::vc_guess[r][v][c] = g;
-                            c += 1;
-                        }
-                    }
-                    v += 1;
+                    guess_clock(r, v);
+                    guess_clock(r, v + 1);
+                    guess_clock(r, v + 2);
+                    guess_clock(r, v + 3);
+                    v += 4;
                 }
             }
             r += 1;
+        }
+    }
+}
+unsafe fn guess_clock(r: usize, v: usize) {
+    if v < ST::nvars && v < NV {
+        let mut c = 0;
+        while c < NT {
+            let g: u8 = (any_usize() & 0xf) as u8;
+            ST::var_vc[r][v][c] = g;
+            ST::vc_guess[r][v][c] = g;
+            c += 1;
         }
     }
 }
@@ -514,6 +569,9 @@ pub fn ops_at_depth(d: usize) -> u32 {
 }
 pub fn interrupts_taken() -> u32 {
     unsafe { ST::interrupts_taken }
+}
+pub fn ptr_swaps() -> u32 {
+    unsafe { ST::ptr_swaps }
 }
 pub fn cas_fails() -> u32 {
     unsafe { ST::cas_fails }
@@ -921,13 +979,20 @@ pub mod atomic {
     unsafe impl<T> Sync for AtomicPtr<T> {}
     impl<T> AtomicPtr<T> {
         pub fn new(p: *mut T) -> Self {
-            let idx = if unsafe { ST::nvars_all } < NV {
-                super::box_idx(p as usize)
-            } else {
-                0
-            };
+            let id = new_var(0, KIND_PTR);
+            if id < NV {
+                let idx = super::box_idx(id, p as usize) as u64;
+                unsafe {
+                    let mut r = 0;
+                    while r < KMAX {
+                        ST::mem[r][id] = idx;
+                        ST::guess[r][id] = idx;
+                        r += 1;
+                    }
+                }
+            }
             AtomicPtr {
-                id: new_var(idx as u64, KIND_PTR),
+                id,
                 p: ::std::cell::UnsafeCell::new(p),
             }
         }
@@ -937,7 +1002,17 @@ pub mod atomic {
                     assert!(self.id < NV);
                     let i = ST::mem[ST::round][self.id] as usize;
                     assume(i < ST::nbox);
-                    ST::boxes[i] as *mut T
+                    // only boxes that were stored into this very word are candidates
+                    let mut p: usize = 0;
+                    let mut j = 1;
+                    while j < ST::nbox {
+                        if ST::box_owner[j] == self.id && j == i {
+                            p = ST::boxes[j];
+                        }
+                        j += 1;
+                    }
+                    assume(i == 0 || p != 0);
+                    p as *mut T
                 } else {
                     *self.p.get()
                 }
@@ -946,13 +1021,14 @@ pub mod atomic {
         fn set(&self, p: *mut T) {
             unsafe {
                 if ST::mode == LR {
-                    let i = super::box_idx(p as usize);
+                    let i = super::box_idx(self.id, p as usize);
                     assert!(self.id < NV);
                     ST::mem[ST::round][self.id] = i as u64;
                 } else {
                     *self.p.get() = p;
-                    if self.id < NV {
-                        ST::mem[0][self.id] = super::box_idx(p as usize) as u64;
+                    if self.id < NV && ST::mirror_ptrs {
+                        // so that a later switch to LR mode starts from the current pointer
+                        ST::mem[0][self.id] = super::box_idx(self.id, p as usize) as u64;
                     }
                 }
             }
@@ -969,6 +1045,10 @@ pub mod atomic {
         }
         pub fn swap(&self, p: *mut T, o: Ordering) -> *mut T {
             point(OP_RMW, self.id, o);
+            unsafe {
+                ST::ptr_swaps += 1;
+                (HOOKS.state_change)(CH_PUBLISH);
+            }
             hb_access(self.id, o, true, true, true);
             let old = self.get();
             self.set(p);
@@ -1035,18 +1115,21 @@ pub mod atomic {
     }
 }
 
-/// Index of `addr` in the box table (allocating an entry for a new address).
-/// Entry 0 is reserved for the null pointer.
-pub fn box_idx(addr: usize) -> usize {
+/// Index of `addr` in the box table of pointer word `owner` (allocating an
+/// entry for a new address).  Entry 0 is the null pointer, shared by all words.
+pub fn box_idx(owner: usize, addr: usize) -> usize {
     unsafe {
         if ST::nbox == 0 {
             ST::boxes[0] = 0;
             ST::nbox = 1;
         }
-        let mut i = 0;
+        if addr == 0 {
+            return 0;
+        }
+        let mut i = 1;
         let mut found = usize::MAX;
         while i < ST::nbox {
-            if ST::boxes[i] == addr && found == usize::MAX {
+            if ST::boxes[i] == addr && ST::box_owner[i] == owner && found == usize::MAX {
                 found = i;
             }
             i += 1;
@@ -1056,6 +1139,7 @@ pub fn box_idx(addr: usize) -> usize {
         }
         assert!(ST::nbox < NB, "vshim: box table full");
         ST::boxes[ST::nbox] = addr;
+        ST::box_owner[ST::nbox] = owner;
         ST::nbox += 1;
         ST::nbox - 1
     }
@@ -1063,6 +1147,25 @@ pub fn box_idx(addr: usize) -> usize {
 
 pub fn box_count() -> usize {
     unsafe { ST::nbox }
+}
+
+// ---------------------------------------------------------------------------
+// round-versioned words for the kernel model (a descriptor's fill level must be
+// shared state like any atomic when threads are sequentialised)
+// ---------------------------------------------------------------------------
+pub fn lr_new(init: u64) -> usize {
+    let id = new_var(init, KIND_USIZE);
+    assert!(id < NV, "vshim: no LR slot left");
+    id
+}
+pub fn lr_rd(var: usize) -> u64 {
+    unsafe { ST::mem[ST::round][var] }
+}
+pub fn lr_wr(var: usize, v: u64) {
+    unsafe { ST::mem[ST::round][var] = v }
+}
+pub fn is_lr() -> bool {
+    unsafe { ST::mode == LR }
 }
 
 // ---------------------------------------------------------------------------
@@ -1176,6 +1279,7 @@ impl<T> Mutex<T> {
                 assume(false);
             }
             wr(self.id, &self.w, 1);
+            (HOOKS.on_lock)(self.id);
             hb_access(self.id, Ordering::Acquire, true, true, true);
             // lock-order edges: (already held) -> (now taken)
             let mut i = 0;
@@ -1226,6 +1330,7 @@ impl<'a, T> Drop for MutexGuard<'a, T> {
         point(OP_UNLOCK, self.m.id, Ordering::SeqCst);
         hb_access(self.m.id, Ordering::Release, false, true, false);
         wr(self.m.id, &self.m.w, 0);
+        unsafe { (HOOKS.on_unlock)(self.m.id) };
         unsafe {
             // remove from held list
             let mut i = 0;
@@ -1878,6 +1983,8 @@ pub mod sync {
         pub static mut released_at: [usize; NARC] = [usize::MAX; NARC];
         pub static mut released_in_delivery: [bool; NARC] = [false; NARC];
         pub static mut used_after_release: [bool; NARC] = [false; NARC];
+        /// harness switch: run the payload's destructor for real when the count reaches zero
+        pub static mut real_drop: bool = false;
     }
     pub struct ArcInner<T: ?Sized> {
         strong: ::std::cell::Cell<usize>,
@@ -1950,6 +2057,10 @@ pub mod sync {
                         ARCS::released_at[i.id] = super::now();
                         ARCS::released_in_delivery[i.id] = super::ST::delivery_depth > 0;
                     }
+                    if ARCS::real_drop {
+                        // the payload goes; the (small) ArcInner allocation itself is leaked
+                        ::std::ptr::drop_in_place(&mut (*self.ptr.as_ptr()).data);
+                    }
                 }
             }
         }
@@ -2008,6 +2119,79 @@ pub mod sync {
         }
         pub fn is_completed(&self) -> bool {
             unsafe { *self.done.get() }
+        }
+    }
+}
+
+// ---------------------------------------------------------------------------
+// net: stand-in for std::os::unix::net::UnixStream over the descriptor model
+// (iterator/mod.rs builds its self-pipe from UnixStream::pair())
+// ---------------------------------------------------------------------------
+pub mod net {
+    use crate::model::{self, FdKind, K};
+    use std::io::{Error, Read, Result};
+    use std::os::unix::io::{AsRawFd, IntoRawFd, RawFd};
+
+    #[derive(Debug)]
+    pub struct UnixStream {
+        fd: RawFd,
+    }
+    /// model descriptors used by pair(): read end, write end (they share one queue)
+    pub const PAIR_READ: RawFd = 4;
+    pub const PAIR_WRITE: RawFd = 5;
+    pub const PAIR_CAP: u32 = 4;
+    impl UnixStream {
+        pub fn pair() -> Result<(UnixStream, UnixStream)> {
+            unsafe {
+                model::open_fd(PAIR_READ as usize, FdKind::Stream, PAIR_CAP, 0, false);
+                model::open_fd(PAIR_WRITE as usize, FdKind::Stream, PAIR_CAP, 0, false);
+                // bytes written to PAIR_WRITE are read from PAIR_READ
+                model::ALIAS[PAIR_READ as usize] = PAIR_WRITE as usize;
+            }
+            Ok((UnixStream { fd: PAIR_READ }, UnixStream { fd: PAIR_WRITE }))
+        }
+        pub fn set_nonblocking(&self, nb: bool) -> Result<()> {
+            unsafe { K::fds[self.fd as usize].nonblock = nb };
+            Ok(())
+        }
+    }
+    impl Read for UnixStream {
+        fn read(&mut self, buf: &mut [u8]) -> Result<usize> {
+            let n = unsafe { crate::read(self.fd, buf.as_mut_ptr() as *mut crate::c_void, buf.len()) };
+            if n < 0 {
+                Err(Error::from_raw_os_error(unsafe { K::errno }))
+            } else {
+                Ok(n as usize)
+            }
+        }
+    }
+    impl<'a> Read for &'a UnixStream {
+        fn read(&mut self, buf: &mut [u8]) -> Result<usize> {
+            let n = unsafe { crate::read(self.fd, buf.as_mut_ptr() as *mut crate::c_void, buf.len()) };
+            if n < 0 {
+                Err(Error::from_raw_os_error(unsafe { K::errno }))
+            } else {
+                Ok(n as usize)
+            }
+        }
+    }
+    impl AsRawFd for UnixStream {
+        fn as_raw_fd(&self) -> RawFd {
+            self.fd
+        }
+    }
+    impl IntoRawFd for UnixStream {
+        fn into_raw_fd(self) -> RawFd {
+            let fd = self.fd;
+            ::std::mem::forget(self);
+            fd
+        }
+    }
+    impl Drop for UnixStream {
+        fn drop(&mut self) {
+            unsafe {
+                crate::close(self.fd);
+            }
         }
     }
 }
